@@ -1,4 +1,5 @@
 import Rangers.Proofs.TrieIterBytes
+import Rangers.Proofs.TrieCompact
 /-!
 # C02 — the state trie root is the canonical Merkle-Patricia commitment of its content
 
@@ -93,6 +94,19 @@ example : finalMap [.upd [1] [7], .commit, .upd [2] [8], .upd [3] [9], .del [3],
   by_cases h1 : k = [1] <;> by_cases h2 : k = [2] <;> by_cases h3 : k = [3] <;> simp_all
 
 theorem rootHash_empty (H : Bytes → Bytes) : rootHash H .nil = emptyRoot := rfl
+
+/-! ## hex-prefix (compact) key encoding -/
+
+/-- `compactToHex (hexToCompact k) = k` for every key the trie stores in a short node:
+    nibble paths (extension nodes) and terminated paths (leaves). `some` = no out-of-range slice. -/
+theorem compact_roundtrip (k : Key) (hk : Nibs k ∨ ValidKey k) : compactToHex (hexToCompact k) = some k := by
+  rcases hk with hk | hk
+  · exact compact_roundtrip_nibs k hk
+  · obtain ⟨n, rfl, hn⟩ := (validKey_iff k).mp hk
+    exact compact_roundtrip_term n hn
+
+example : Nibs [1, 15, 0] ∨ ValidKey [1, 15, 0] := Or.inl (by simp [Nibs])
+example : Nibs [1, 15, 16] ∨ ValidKey [1, 15, 16] := Or.inr (by simp [ValidKey])
 
 /-! ## iteration -/
 
